@@ -44,9 +44,15 @@ def run_replay(path, timeout=150):
     env["PYTHONPATH"] = REPO + os.pathsep + ROOT
     env["AIOHTTP_NO_EXTENSIONS"] = "1"
     env.pop("AIOHTTP_VERIF_SYMX", None)
+    def _limit():
+        import resource
+
+        lim = int(os.environ.get("VERIF_WORKER_MEM_GB", "6")) << 30
+        resource.setrlimit(resource.RLIMIT_AS, (lim, resource.getrlimit(resource.RLIMIT_AS)[1]))
+
     try:
         p = subprocess.run([sys.executable, "-m", "vf.replay", path], capture_output=True, text=True,
-                           timeout=timeout, env=env, cwd=ROOT)
+                           timeout=timeout, env=env, cwd=ROOT, preexec_fn=_limit)
     except subprocess.TimeoutExpired:
         return {"reproduced": True, "key": "replay-timeout", "detail": "replay did not finish (hang)"}
     for line in reversed(p.stdout.splitlines()):
